@@ -28,8 +28,9 @@ def field_index(prog, struct, name):
 class Programs:
     """event programs of the real functions, extracted once per check run"""
 
-    def __init__(self, prog=None, writer_new_only=False):
+    def __init__(self, prog=None, writer_new_only=False, tolerate_reader_loops=False):
         self.writer_new_only = writer_new_only
+        self.tolerate_reader_loops = tolerate_reader_loops
         t0 = time.time()
         if prog is None:
             prog, self.mir_wall = load_shm_program()
@@ -51,7 +52,13 @@ class Programs:
     def new_exec(self, extra_env=()):
         ex = Exec(self.prog, env=list(extra_env) + self.env.handlers())
         ex.deref_hook = self.env.deref_hook; ex.store_hook = self.env.store_hook
+        ex.rec_layout = self.rec
+        self.execs = getattr(self, 'execs', []) + [ex]
         return ex
+
+    def content_dependent(self):
+        """True when some extracted program looked inside the record (its decisions depend on what a publication contains)"""
+        return any(e.rec_data_used for e in getattr(self, 'execs', []))
 
     # ------------------------------------------------------------------ reader
     def setup_reader(self):
@@ -90,9 +97,17 @@ class Programs:
         st = State(); st.mem[(0, 'r')] = Struct(f)
         ex2 = self.new_exec()
         sn = prog.find1('snapshot', self_ty='ShmReader')
-        self.snap = summarise(ex2, sn, [Ref(0, 'r')], st, watch_mem=[(0, 'r')])
         self.snap_ex = ex2
         self.snap_fn = sn
+        self.snap_state0 = st
+        try:
+            self.snap = summarise(ex2, sn, [Ref(0, 'r')], st.fork(), watch_mem=[(0, 'r')])
+        except EngineError as e:
+            if self.tolerate_reader_loops and 'loops' in str(e):
+                # C18 analyses the loops of snapshot() one by one; the scenario checks need the single retry loop
+                self.snap = None; self.snap_error = str(e); self.rank = None; self.exit_alts = []
+                return
+            raise
         self.rank = self.find_rank()
         self.exit_alts = [a for g in self.snap.iteration if not g.events for a in g.alts if a.kind == 'return'] if self.snap.iteration else []
 
@@ -229,9 +244,10 @@ class Scenario:
     """one bounded program: an initial segment state, a writer history, M reader calls"""
 
     def __init__(self, P, name='s'):
-        if P.writer_private_state:
-            raise EngineError('the writer keeps private state across calls (%s): the bounded seqlock scenarios are built from a per-call '
-                              'program of write() and do not cover such a writer' % P.writer_private_state)
+        # a writer that keeps private state across calls (e.g. a cached generation): its object is carried from ShmWriter::new
+        # through every write() of the scenario, and write() is re-extracted for the object each call starts from
+        self.stateful = bool(P.writer_private_state)
+        self.wobj = None
         self.P = P
         self.enc = Enc(name)
         self.enc.add(*P.side())
@@ -267,7 +283,10 @@ class Scenario:
         self.npub += 1
         k = self.npub
         first = len(self.enc.wev)
-        self.enc.writer_segment(self.P.write.prefix, [(self.P.ktag, z3.IntVal(k))], pub=k)
+        if not self.stateful:
+            self.enc.writer_segment(self.P.write.prefix, [(self.P.ktag, z3.IntVal(k))], pub=k)
+        else:
+            self._publish_stateful(k)
         last = len(self.enc.wev) - 1
         if crash is not None:
             self.enc.apply_crash(first, last, crash)
@@ -276,6 +295,58 @@ class Scenario:
         # "publication k completed": all its events were performed
         self.pub_final[k] = z3.BoolVal(True) if crash is None else (crash > last - first)
         return k
+
+    # ------------------------------------------------------------------ writers with private state
+    def _virtual_startup(self):
+        """the writer object of a writer that was created by ShmWriter::new on the scenario's initial segment and has not
+        written since (scenarios that begin with a running writer)"""
+        P = self.P; e = self.enc
+        objs = {}
+        for o in P.writer_new_outs:
+            if o.kind != 'return' or 'Ok' not in o.value.p or 'Err' in o.value.p:
+                continue
+            wiped = 'wipe' in [ev.kind for ev in o.state.trace]
+            if wiped in objs:
+                continue
+            pairs = []
+            for ev in o.state.trace:
+                if ev.kind == 'load':
+                    loc = (ev.args[1], ev.args[2])
+                    pairs.append((ev.ret, z3.IntVal(0) if wiped and loc != self.wver_loc else e.init_val(loc)))
+            obj = o.value.p['Ok'].f[0]
+            objs[wiped] = subst(obj, pairs) if pairs else obj
+        if False not in objs:
+            raise EngineError('ShmWriter::new has no path that reuses a segment')
+        return ite(self.g0 == 0, objs[True], objs[False]) if True in objs else objs[False]
+
+    def _merge_obj(self, groups, sels, gps, pick):
+        new_obj = None
+        for g, sel, gp in zip(groups, sels, gps):
+            for a in g.alts:
+                m = pick(a)
+                if m is None:
+                    continue
+                m = subst(m, gp) if gp else m
+                cond = z3.And(sel, subst(a.guard, gp) if gp else a.guard)
+                new_obj = m if new_obj is None else ite(cond, m, new_obj)
+        return new_obj
+
+    def _publish_stateful(self, k):
+        from mirsym.seqlock import summarise
+        from mirsym.exec import State as St
+        P = self.P
+        if self.wobj is None:
+            self.wobj = self._virtual_startup()
+        st = St(); st.mem[(0, 'w')] = self.wobj; st.mem[(0, 'rec')] = Rec([P.ktag] * NW)
+        ex = P.new_exec()
+        S = summarise(ex, P.write_fn, [Ref(0, 'w'), Ref(0, 'rec')], st, watch_mem=[(0, 'w')])
+        if S.head is not None:
+            raise EngineError('ShmWrite::write contains a loop')
+        self.enc.add(*ex.side)
+        sels = self.enc.writer_segment(S.prefix, [(P.ktag, z3.IntVal(k))], pub=k)
+        self.wobj = self._merge_obj(S.prefix, sels, self.enc.last_gps, lambda a: a.mem.get((0, 'w')))
+        if self.wobj is None:
+            raise EngineError('writer object lost after write()')
 
     def startup(self, usable=True):
         """the shared-memory events of ShmWriter::new: all successful paths for a usable (no wipe) or unusable
@@ -295,7 +366,12 @@ class Scenario:
             outs2.append(Outcome(s2, o.value, 'return'))
         groups = group_outcomes(outs2, -1)
         usable_v, wipe_ok = P.writer_new_vars
-        self.enc.writer_segment(groups, [(usable_v, z3.BoolVal(usable)), (wipe_ok, z3.BoolVal(True))], pub=None)
+        sels = self.enc.writer_segment(groups, [(usable_v, z3.BoolVal(usable)), (wipe_ok, z3.BoolVal(True))], pub=None)
+        if self.stateful:
+            # the object the constructor returns (its loads read what the segment held at that moment)
+            self.wobj = self._merge_obj(groups, sels, self.enc.last_gps, lambda a: a.value.p['Ok'].f[0] if a.value is not None and 'Ok' in a.value.p else None)
+            if self.wobj is None:
+                raise EngineError('writer object of ShmWriter::new not found')
 
     # ------------------------------------------------------------------ reader calls
     def reader_call(self, sgen_in, cache_in, R, floor=None):
